@@ -294,7 +294,7 @@ fn main() {
          (sub-check, length class, foldable?, bits / len%4)",
     );
     check.assume("refcrypt / lookup3 are my transcriptions of the published algorithms, self-checked against published constants");
-    check.assume("het fold = ASCII upper + '/'→'\\' (the statement says 'case- and slash-folded' without naming the direction; the code's direction is used)");
+    check.assume("het fold = ASCII lower + '/'→'\\' (StormLib's HashStringJenkins; the library's upper-case folding is a listed finding reported under its own signature)");
     check.assume("ciphertext equality with the reference is only demanded for key != 0 (the library treats key 0 as 'no encryption'; inverse property is still checked there)");
 
     if let Err(e) = refcrypt::self_check().and(lookup3::self_check()) {
@@ -306,6 +306,8 @@ fn main() {
         replay(&check, &p);
         check.finish();
     }
+
+    table_cipher_end_to_end(&check, None);
 
     // 1. table, exhaustive
     let rt = refcrypt::table();
@@ -459,10 +461,61 @@ fn main() {
     check.finish();
 }
 
+fn table_cipher_end_to_end(check: &Check, only: Option<&str>) {
+    // 0. the table cipher end to end (tables/common.rs is crate-private): extended tables of
+    //    builder-made V3/V4 archives with thousands of files are larger than any internal buffer of
+    //    the table decryption; every name must still resolve to its own content, absent names to nothing
+    for (version, n) in [(wow_mpq::FormatVersion::V3, 1700usize), (wow_mpq::FormatVersion::V4, 3100)] {
+        if only.is_some_and(|o| o != format!("{version:?}")) {
+            continue;
+        }
+        let dir = vcheck::engine::scratch("c04t");
+        let p = dir.path().join("big.mpq");
+        let name = |i: usize| format!("Interface\\Glue\\set{}\\file_{i:05}.blp", i % 37);
+        let body = |i: usize| format!("content of file {i} / {}", i * 2654435761usize % 1000003).into_bytes();
+        let mut b = wow_mpq::ArchiveBuilder::new().version(version).listfile_option(wow_mpq::ListfileOption::Generate);
+        for i in 0..n {
+            b = b.add_file_data(body(i), &name(i));
+        }
+        check.count(&format!("table-cipher-end-to-end:{version:?}:{n}-files"), true);
+        let r: Result<(), Fail> = (|| {
+            vcheck::engine::guard("ArchiveBuilder::build", || b.build(&p))?.map_err(|e| Fail::new("large-archive-build-fails", e.to_string()))?;
+            let mut a = vcheck::engine::guard("Archive::open", || wow_mpq::Archive::open(&p))?.map_err(|e| Fail::new("extended-table-cipher:archive-does-not-open", e.to_string()))?;
+            for i in 0..n {
+                match vcheck::engine::guard("Archive::read_file", || a.read_file(&name(i)))? {
+                    Ok(d) if d == body(i) => {}
+                    Ok(d) => {
+                        return Err(Fail::new(
+                            "extended-table-cipher:name-resolves-to-other-content",
+                            format!("{version:?} archive with {n} files: {:?} reads {} bytes that are not its content", name(i), d.len()),
+                        ))
+                    }
+                    Err(e) => return Err(Fail::new("extended-table-cipher:name-not-read", format!("{version:?} archive with {n} files: {:?}: {e}", name(i)))),
+                }
+            }
+            for i in 0..200 {
+                let absent = format!("Interface\\Glue\\set{}\\nofile_{i:05}.blp", i % 37);
+                if let Ok(Some(_)) = a.find_file(&absent) {
+                    return Err(Fail::new("extended-table-cipher:absent-name-found", format!("{version:?} archive with {n} files: {absent:?} was never added")));
+                }
+            }
+            Ok(())
+        })();
+        if let Err(f) = r {
+            check.fail(&f, json!({"kind": "table_cipher", "version": format!("{version:?}"), "files": n}));
+        }
+    }
+
+}
+
 fn replay(check: &Check, p: &std::path::Path) {
     let v: serde_json::Value = serde_json::from_str(&std::fs::read_to_string(p).expect("replay file")).expect("json");
     let c = &v["case"];
     let r: CaseResult = match c["kind"].as_str().unwrap_or("") {
+        "table_cipher" => {
+            table_cipher_end_to_end(check, c["version"].as_str());
+            Ok(())
+        }
         "hash" => check_hash(c["s"].as_str().unwrap()),
         "het" => check_jenkins(c["s"].as_str().unwrap(), c["bits"].as_u64().unwrap() as u32),
         "hashhet" => check_hash(c["s"].as_str().unwrap())
